@@ -72,6 +72,21 @@ type c10Env struct {
 	maxSrvAlloc, maxCliAlloc uint64
 	maxSrvWhat, maxCliWhat   string
 	hangs                    int
+	maxByPos                 map[string]uint64 // position → largest allocation seen (excess over 64·len)
+}
+
+// notePos records the allocation at a position beyond the part proportional to the message.
+func (e *c10Env) notePos(name string, alloc uint64, n int) {
+	if e.maxByPos == nil {
+		e.maxByPos = map[string]uint64{}
+	}
+	ex := uint64(0)
+	if alloc > uint64(64*n) {
+		ex = alloc - uint64(64*n)
+	}
+	if ex > e.maxByPos[name] {
+		e.maxByPos[name] = ex
+	}
 }
 
 func c10(x *runCtx) {
@@ -126,6 +141,7 @@ func c10(x *runCtx) {
 			c10Client(e, w, c.nStruct, c.nBy, c.nRandom)
 		}
 	}
+	x.r.Extra["alloc_max_excess_by_position"] = e.maxByPos
 	x.r.Extra["alloc_honest_or_mutant_max_server_bytes"] = e.maxSrvAlloc
 	x.r.Extra["alloc_honest_or_mutant_max_client_bytes"] = e.maxCliAlloc
 	x.r.Extra["alloc_max_server_case"] = e.maxSrvWhat
